@@ -146,6 +146,17 @@ func Zoo() []ZooEntry {
 	add("string-unicode", Str("日本語 é 😀"))
 	add("string-nul", Str("a\x00b"))
 	add("string-invalid-utf8", Str("a\xffb"))
+	add("[]int64-extremes", Slice(SliceOf(TInt64), IntOf(TInt64, math.MinInt64), IntOf(TInt64, math.MaxInt64), IntOf(TInt64, 5)))
+	add("[]uint64-extremes", Slice(SliceOf(TUint64), UintOf(TUint64, math.MaxUint64), UintOf(TUint64, 0), UintOf(TUint64, 5)))
+	add("[]float64-extremes", Slice(SliceOf(TFloat64), Float(math.Copysign(0, -1)), Float(math.SmallestNonzeroFloat64), Float(math.MaxFloat64), Float(math.Inf(1)), Float(5)))
+	add("[]interface{}-extremes", IfaceSlice(IntOf(TInt64, math.MinInt64), UintOf(TUint64, math.MaxUint64), Float(math.Copysign(0, -1)), Float(math.Inf(-1)), IntOf(TInt8, -128), Str("5")))
+	add("map[int64]string-extremes", MapNode(MapOf(TInt64, TString), []*Node{IntOf(TInt64, math.MinInt64), IntOf(TInt64, math.MaxInt64), IntOf(TInt64, 5)}, []*Node{Str("abc"), Str("x"), Str("abc")}))
+	add("map[uint64]string-extremes", MapNode(MapOf(TUint64, TString), []*Node{UintOf(TUint64, math.MaxUint64), UintOf(TUint64, 5)}, []*Node{Str("abc"), Str("x")}))
+	add("map[float64]string-extremes", MapNode(MapOf(TFloat64, TString), []*Node{Float(0), Float(math.Inf(1)), Float(5)}, []*Node{Str("abc"), Str("x"), Str("y")}))
+	add("map[string]float64-negzero", MapNode(MapOf(TString, TFloat64), []*Node{Str("abc"), Str("5")}, []*Node{Float(math.Copysign(0, -1)), Float(math.SmallestNonzeroFloat64)}))
+	add("float64-negzero", Float(math.Copysign(0, -1)))
+	add("float64-inf", Float(math.Inf(1)))
+	add("int64-min", IntOf(TInt64, math.MinInt64))
 	add("chan", &Node{T: &Type{K: KChan}, I: 1})
 	add("func", &Node{T: &Type{K: KFunc}})
 	add("complex128", &Node{T: &Type{K: KComplex128}, F: 1})
